@@ -355,6 +355,25 @@ fn run_ops<T: Bits, C: ArrayLength + PartialEq>(ops: &[&str]) -> (String, Result
                 m = m.clone();
                 i += 1;
             }
+            "reserve" => {
+                // more capacity, same table (the model treats it like `clone`: the identity on the table)
+                let n: usize = ops[i + 1].parse().unwrap();
+                m.reserve(n);
+                i += 2;
+            }
+            "ravelset" => {
+                // a cell written through the flat mutable view (`unsafe fn ravel_mut`): cell (r, c) is
+                // element r * stride + c (the model treats it like `cell r c v`)
+                let (r, cc, v): (usize, usize, u64) = (ops[i + 1].parse().unwrap(), ops[i + 2].parse().unwrap(), ops[i + 3].parse().unwrap());
+                if r < m.rows() && cc < c {
+                    let stride = m.stride();
+                    unsafe { m.ravel_mut()[r * stride + cc] = T::from_bits(v) };
+                    want[r][cc] = mask(v);
+                } else {
+                    panicked = true;
+                }
+                i += 4;
+            }
             "clonefrom" => {
                 let r: usize = ops[i + 1].parse().unwrap();
                 let v: u64 = ops[i + 2].parse().unwrap();
@@ -463,7 +482,14 @@ pub fn generate(cfg: &Cfg) -> Vec<String> {
         let mut line = format!("c19 {} {}", ty, c);
         let mut rows = 0usize;
         for _ in 0..nops {
-            match rng.below(13) {
+            match rng.below(15) {
+                13 => line.push_str(&format!(" reserve {}", rng.range(0, 70))),
+                14 => {
+                    // in range only: the flat view has no bounds of its own worth observing
+                    if rows > 0 {
+                        line.push_str(&format!(" ravelset {} {} {}", rng.below(rows), rng.below(c), val(&mut rng, ty)));
+                    }
+                }
                 0 => {
                     rows = rng.range(0, 12);
                     line.push_str(&format!(" new {}", rows));
